@@ -175,6 +175,35 @@ impl TypeParams {
             }
         }
 
+        for (param, replace) in self.type_params.iter() {
+            if let Some(ty) = replace {
+                // A concrete type cannot be given in terms of the type parameters it replaces
+                let mut mentioned = None;
+                traverse_type(&mut ty.clone(), &mut |ty| {
+                    if let Type::Path(tp) = ty {
+                        if tp.qself.is_none() {
+                            if let Some((name, _)) = self
+                                .type_params
+                                .iter()
+                                .find(|(name, _)| tp.path.is_ident(name))
+                            {
+                                mentioned = Some(name.clone());
+                            }
+                        }
+                    }
+                    true
+                });
+                if let Some(name) = mentioned {
+                    errors.err(
+                        format!(
+                            "The concrete type of {param} cannot mention the type parameter {name}"
+                        ),
+                        ty.span(),
+                    );
+                }
+            }
+        }
+
         for (ty, replace) in self.type_params.iter() {
             match replace {
                 Some(ty) => {
@@ -231,7 +260,10 @@ impl TypeParams {
 }
 
 pub fn replace_lifetimes(ty: &mut Type) {
-    traverse_type(ty, &mut replace_lifetime)
+    traverse_type(ty, &mut |ty| {
+        replace_lifetime(ty);
+        true
+    })
 }
 
 pub fn replace_lifetime(ty: &mut Type) {
@@ -265,8 +297,11 @@ pub fn replace_lifetime(ty: &mut Type) {
     }
 }
 
-pub fn traverse_type(ty: &mut Type, f: &mut impl FnMut(&mut Type)) {
-    f(ty);
+/// Calls `f` on `ty` and, as long as `f` returns `true`, on the types nested in it.
+pub fn traverse_type(ty: &mut Type, f: &mut impl FnMut(&mut Type) -> bool) {
+    if !f(ty) {
+        return;
+    }
     match ty {
         Type::Array(array) => traverse_type(&mut array.elem, f),
         Type::BareFn(bare_fn) => {
@@ -296,7 +331,7 @@ pub fn traverse_type(ty: &mut Type, f: &mut impl FnMut(&mut Type)) {
     }
 }
 
-fn traverse_path(path: &mut Path, f: &mut impl FnMut(&mut Type)) {
+fn traverse_path(path: &mut Path, f: &mut impl FnMut(&mut Type) -> bool) {
     for segment in &mut path.segments {
         match &mut segment.arguments {
             syn::PathArguments::None => (),
